@@ -42,6 +42,7 @@ func roleChangeOne(rep *core.Report, sel Select, c Case, l sim.Layout, pages str
 	defer os.RemoveAll(dir)
 	cl := sim.NewCluster(dir)
 	defer func() { _ = core.Try(cl.Close) }()
+	// (the lease keeps its short TTL: the holder notices an expiry at its next renewal, after TTL/2)
 	must := func(err error, what string) {
 		if err != nil {
 			core.Infra("faults role_change setup: %s [%s]: %v", what, key, err)
@@ -86,6 +87,10 @@ func roleChangeOne(rep *core.Report, sel Select, c Case, l sim.Layout, pages str
 	})
 	must(cl.WaitPos("b", dbName, A.Store.DB(dbName).Pos(), 20*time.Second), "b catches up")
 
+	if !A.Store.IsPrimary() || len(A.Exits()) > 0 {
+		rep.Note("faults: %s: node a lost its lease before the scenario took it away (starved of CPU?); run discarded", key)
+		return
+	}
 	// the lease service lets the lease run out: a's next renewal is answered "expired"; b takes over
 	cl.Lease.AllowOnly(B.URL)
 	cl.Lease.Expire()
